@@ -70,9 +70,11 @@ def small_programs(tier):
                "(defun nontail (n x) (if (< n 1) (list x) (cons x (nontail (- n 1) x)))) "
                "(defun viaf (n x) (if (< n 1) x (funcall 'viaf (- n 1) (list x)))) "
                "(defun evn (n x) (if (< n 1) (list 'even x) (odd (- n 1) x))) (defun odd (n x) (if (< n 1) (list 'odd x) (evn (- n 1) x))) "
-               "(defun opt (n &optional x &rest r) (if (< n 1) (list x r) (opt (- n 1) x 'k1 x)))")
+               "(defun opt (n &optional x &rest r) (if (< n 1) (list x r) (opt (- n 1) x 'k1 x))) "
+               "(defun fbk (n v) (cond ((< n 1) nil) ((fbk (- n 1) v)) (t (list 'fallback n v)))) "
+               "(defun fbk2 (n v) (progn (setq a (cons n a)) (cond ((< n 1) (if (equal v 'stop) v nil)) ((let ((k 1)) (fbk2 (- n k) v))) ((setq a (cons 'later a)) (list n v)))))")
     rvals = ["'tag", "'a", "'(1 2)", "'(tick 5)", "''q", "'(setq a 99)", "\"s\"", "7", "nil", "a", "'(a b)", "(list 'quote 'z)", ":k", "'nosuchvar", "`(,a)"]
-    rcalls = ["(build %d nil)", "(walk %d V)", "(keepq %d V)", "(nontail %d V)", "(viaf %d V)", "(evn %d V)", "(opt %d V)", "(opt %d V 'r1 V)",
+    rcalls = ["(fbk %d V)", "(fbk2 %d V)", "(fbk2 %d 'stop)", "(build %d nil)", "(walk %d V)", "(keepq %d V)", "(nontail %d V)", "(viaf %d V)", "(evn %d V)", "(opt %d V)", "(opt %d V 'r1 V)",
               "(funcall 'walk %d V)", "(mapcar (lambda (e) (walk %d e)) (list V V))", "(let ((tag 'ltag) (q 'lq)) (keepq %d V))", "(walk %d (walk 1 V))"]
     for cform in rcalls:
         for n in (0, 1, 2, 3):
